@@ -139,3 +139,26 @@ def expected_coincidences(n, magnitude, sd):
         return float("inf")
     ulp = math.ulp(max(magnitude, 1e-300))
     return 0.5 * n * n * ulp / (2.0 * sd * math.sqrt(math.pi))
+
+
+def z_halves(x, var):
+    """z-score of the difference between the means of the first and second half of a sequence that should be i.i.d.
+    with variance var (a change of regime in the middle of a sample - a generator re-seeded, a block repeated - shows here)."""
+    x = np.asarray(x, dtype=float)
+    n = len(x) // 2
+    if n < 10 or var <= 0:
+        return 0.0
+    return float((x[:n].mean() - x[n:2 * n].mean()) / math.sqrt(2.0 * var / n))
+
+
+def z_lag(x, k):
+    """z-score of the lag-k autocorrelation (approximately N(0, 1/n) for an i.i.d. sequence)."""
+    x = np.asarray(x, dtype=float)
+    n = len(x)
+    if n < 10 * (k + 1):
+        return 0.0
+    d = x - x.mean()
+    den = float(np.dot(d, d))
+    if den == 0:
+        return 0.0
+    return float(np.dot(d[:-k], d[k:]) / den * math.sqrt(n))
